@@ -133,6 +133,8 @@ def explain(case, i, m):
             what.append(f"processor calls {json.dumps(a.get('calls'))} instead of {json.dumps(b.get('calls'))}")
         if vlib.canon(a.get("active")) != vlib.canon(b.get("active")):
             what.append(f"active rule sets {json.dumps(a.get('active'))} instead of {json.dumps(b.get('active'))}")
+        if vlib.canon(a.get("served")) != vlib.canon(b.get("served")):
+            what.append(f"requests are answered by {json.dumps(a.get('served'))} instead of {json.dumps(b.get('served'))}")
         if vlib.canon(a.get("book")) != vlib.canon(b.get("book")):
             what.append(f"remembered hashes {json.dumps(a.get('book'))} instead of {json.dumps(b.get('book'))}")
         if a.get("err") != b.get("err"):
@@ -182,18 +184,31 @@ def spec_mismatch(i, m):
     for k, (a, want) in enumerate(zip(i["steps"], spec)):
         if vlib.canon(a.get("active")) != vlib.canon(want):
             return k, a.get("active"), want
+        if "served" in a:
+            # ... and they are what requests are really answered with (FindRule on the path of every content)
+            exp = sorted(([path_of(int(vs[0][1:])), s, vs[0]] for s, vs in want if len(vs) == 1), key=lambda x: x[0])
+            exp = [["/c%d" % p, s, v] for p, s, v in exp]
+            if vlib.canon(a["served"]) != vlib.canon(exp):
+                return k, a["served"], exp
     return None
+
+
+def path_of(v):
+    return v % 500 if v < 1000 else v
 
 
 def tally(cases, model):
     st = {"steps": 0, "created": 0, "updated": 0, "deleted": 0, "refused_calls": 0, "steps_without_call": 0,
-          "steps_without_call_while_loaded": 0, "polls_with_2plus_calls": 0, "relists": 0}
+          "steps_without_call_while_loaded": 0, "polls_with_2plus_calls": 0, "relists": 0,
+          "calls_refused_by_the_repository": 0, "refused_then_later_deleted_or_updated": 0}
     by_kind = {}
     outcomes = {}
     nontrivial = set()
     for c, m in zip(cases, model):
         r = vlib.res_of(m)
         by_kind[c["kind"]] = by_kind.get(c["kind"], 0) + 1
+        if any(f["file"].get("link") for f in c.get("init", []) if "file" in f):
+            outcomes["config:symlink present at start"] = outcomes.get("config:symlink present at start", 0) + 1
         if len(c.get("buckets", [])) >= 2:
             outcomes["config:blob 2+ buckets"] = outcomes.get("config:blob 2+ buckets", 0) + 1
             pairs = [(b.get("name"), b.get("prefix", "")) for b in c["buckets"]]
@@ -205,12 +220,16 @@ def tally(cases, model):
         if not usable(r):
             continue
         kinds = set()
+        refused_srcs = set()
         quiet_loaded = False
         for s, o in zip(c["steps"], r["steps"]):
             st["steps"] += 1
             for key in ("file", "resp"):
                 if key in s:
                     outcomes[s[key].get("st")] = outcomes.get(s[key].get("st"), 0) + 1
+                    if s[key].get("link"):
+                        lk = "symlink:" + {"missing": "dangling", "dir": "to a directory"}.get(s[key].get("st"), "to a file")
+                        outcomes[lk] = outcomes.get(lk, 0) + 1
             for b in s.get("set", []):
                 outcomes["blob:" + b["blob"]["st"]] = outcomes.get("blob:" + b["blob"]["st"], 0) + 1
             if s.get("fail"):
@@ -229,6 +248,15 @@ def tally(cases, model):
                 if o.get("active"):
                     st["steps_without_call_while_loaded"] += 1
                     quiet_loaded = True
+            scripted = {"s%d" % x for x in s.get("rej", [])}
+            spec_bad = json.dumps(s).find('"bad"') >= 0
+            for call in calls:
+                if call[3] != "ok" and not spec_bad and call[1].split("u")[0] not in scripted and call[1] not in scripted:
+                    st["calls_refused_by_the_repository"] += 1
+                    refused_srcs.add(call[1])
+                elif call[3] == "ok" and call[1] in refused_srcs and call[0] in ("deleted", "updated"):
+                    st["refused_then_later_deleted_or_updated"] += 1
+                    refused_srcs.discard(call[1])
             for call in calls:
                 if call[3] == "ok":
                     st[call[0]] += 1
@@ -278,16 +306,19 @@ def run(R):
     R.coverage.update({
         "evaluations": len(cases), "distinct_nontrivial": len(nontrivial),
         "rule": "random histories of rule-set sources per provider: file_system (notifications with any op bits handed "
-                "to ruleSetsChanged over real files, and real file operations observed through fsnotify), "
+                "to ruleSetsChanged over real files, and real file operations observed through fsnotify; directory "
+                "entries are regular files, sub directories or symbolic links to a file / a directory / nothing, "
+                "present at start, created, re-pointed and removed), "
                 "http_endpoint (1-3 endpoints, also same path on two hosts or differing in the query only; httptest servers: valid yaml/json, empty, unparsable, unknown content type, 4xx/5xx, "
                 "closed connection, cancelled poll), cloud_blob (S3 fake: blobs appearing/changing/emptied/broken/"
                 "removed, unreachable bucket, single-blob urls), kubernetes (real informer over a scripted "
                 "list/watch: add/modify/delete, status-only updates, class changes, broken watch with missed "
                 "deletions and re-created resources); each step may have the rule-set processor refuse the calls "
-                "of some sources; the real providers with a recording processor in front of the real processor, "
+                "of some sources, and file_system / http_endpoint histories contain well-formed contents the REAL "
+                "repository refuses (path expression owned by another source) followed by removals and valid updates; the real providers with a recording processor in front of the real processor, "
                 "rule factory and repository are compared step by step (calls with results, active rule sets, "
-                "remembered hashes) with the Lean model, and the active rule sets with the SPEC (latest valid "
-                "content). Non-trivial = history with at least one accepted update, one accepted deletion and one "
+                "rule answering a request for the path of every content (FindRule), remembered hashes) with the Lean "
+                "model, and the active rule sets and answering rules with the SPEC (latest valid content). Non-trivial = history with at least one accepted update, one accepted deletion and one "
                 "step without any call while rule sets were loaded; distinct by hash of the case",
         "cases_by_provider": by_kind, "input_mix": outcomes, "corpus_cases": len(corpus),
         "spec_oracle_comparisons": spec_checked, "harness_errors": len(harness_errors),
